@@ -20,7 +20,11 @@ pub fn edwards_wire(rng: &mut Prng, honest: Option<[u8; 32]>, faulty: bool, c: &
         return h.to_vec();
     }
     let t = ed::torsion();
-    match rng.below(15) {
+    match rng.below(16) {
+        15 => {
+            bump(c, "fault:enc_structured_words");
+            structured_words(rng).to_vec()
+        }
         14 => {
             bump(c, "fault:enc_structured_near_p");
             // keep drawing until the y decodes about half of the time (both outcomes are interesting)
@@ -152,7 +156,16 @@ pub fn ristretto_wire(rng: &mut Prng, honest: Option<[u8; 32]>, faulty: bool, c:
         bump(c, "wire:honest");
         return h.to_vec();
     }
-    match rng.below(13) {
+    match rng.below(14) {
+        13 => {
+            bump(c, "fault:enc_structured_words");
+            let mut b = structured_words(rng);
+            if rng.coin() {
+                b[0] &= 0xfe;
+                b[31] &= 0x7f;
+            }
+            b.to_vec()
+        }
         12 => {
             bump(c, "fault:enc_structured_near_p");
             let mut b = near_p_structured(rng);
@@ -335,7 +348,11 @@ pub fn montgomery_wire(rng: &mut Prng, honest: [u8; 32], faulty: bool, c: &mut C
         return honest;
     }
     let t = ed::torsion();
-    match rng.below(12) {
+    match rng.below(13) {
+        12 => {
+            bump(c, "fault:enc_structured_words");
+            structured_words(rng)
+        }
         11 => {
             bump(c, "fault:enc_structured_near_p");
             near_p_structured(rng)
